@@ -162,6 +162,17 @@ def _history(raw_cfg):
     return views, final
 
 
+_REF = {}
+
+
+def _reference(gate, flag_absent):
+    # the reference history does not depend on the variant: computed once per process, deep-copied per path
+    key = (gate, flag_absent)
+    if key not in _REF:
+        _REF[key] = _history(_base_cfg(gate, flag_absent))
+    return copy.deepcopy(_REF[key])
+
+
 FORBIDDEN = {"perf": (), "perf.parallel": (), "graph": ("gel.jsonl",), "t2.quality": (), "t2.hybrid": (), "t3.reflection": ("t3_reflection.jsonl",), "scheduler": ("scheduler.jsonl",)}
 
 
@@ -183,7 +194,7 @@ def gate_inert(gi: int, vi: int, flag_absent: bool) -> bool:
     descr, raw = pick(VARIANTS[gate], vi)
     try:
         got = _history(copy.deepcopy(raw))
-        ref = _history(_base_cfg(gate, flag_absent))
+        ref = _reference(gate, True if flag_absent else False)
     except Exception:
         return False
     ok = got[1] == ref[1]
